@@ -5,8 +5,10 @@ package main
 // returned value must be the projection of. Stored / passed-in messages and the mask are watched by shadow copies.
 
 import (
+	"bytes"
 	"context"
 	"fmt"
+	"time"
 
 	"github.com/smart-core-os/sc-api/go/types"
 	"google.golang.org/protobuf/proto"
@@ -25,6 +27,19 @@ type input struct {
 	paths   []string
 	nilMask bool
 	variant int // selects equivalent ways of driving the same entry point (constructor, option, backpressure)
+}
+
+// closedEarly is called when a stream ends where an event was due. With a corrupted mask that usually means the
+// library goroutine is panicking (its deferred close ran first) and the process is about to die: wait so that the
+// crash is attributed to the guarded case. The wait decides nothing: what a read with a corrupted mask returns is
+// not judged, and a stream that merely ends is accepted.
+func (in *input) closedEarly(out *outcome, what string) {
+	if !projectable(in.md, in.paths) {
+		time.Sleep(3 * time.Second)
+		out.closedNoCrash = true
+		return
+	}
+	out.shape = append(out.shape, what)
 }
 
 func (in *input) mask() *fieldmaskpb.FieldMask {
@@ -52,27 +67,43 @@ type outcome struct {
 	mutated []string // which watched message changed: "stored", "input", "mask"
 	shape   []string // structural surprises (wrong number of items, stream closed, ok=false ...)
 	watched int      // messages compared with their shadow copy
+	// closedNoCrash: a stream with a corrupted mask ended early and the process survived (accepted, counted)
+	closedNoCrash bool
 }
 
 type watch struct {
 	label string
 	ptr   proto.Message
 	copy  proto.Message
+	wire  []byte // deterministic encoding of ptr when it was first seen
+}
+
+func wire(m proto.Message) []byte {
+	b, err := proto.MarshalOptions{Deterministic: true}.Marshal(m)
+	if err != nil {
+		panic("harness: marshal: " + err.Error())
+	}
+	return b
 }
 
 type watcher struct{ ws []watch }
 
-func (w *watcher) add(label string, m proto.Message) {
+// add starts watching m and returns the deep copy taken now (never handed to the library, never changed).
+func (w *watcher) add(label string, m proto.Message) proto.Message {
 	if m == nil || !m.ProtoReflect().IsValid() {
-		return
+		return nil
 	}
-	w.ws = append(w.ws, watch{label, m, proto.Clone(m)})
+	c := proto.Clone(m)
+	w.ws = append(w.ws, watch{label, m, c, wire(m)})
+	return c
 }
 
 func (w *watcher) verify(out *outcome) {
 	out.watched += len(w.ws)
 	for _, x := range w.ws {
-		if !vk.SameMessage(x.ptr, x.copy) {
+		// unchanged = the same deterministic encoding as before (cheaper than a reflective comparison); a
+		// difference is confirmed against the deep copy before it is reported
+		if !bytes.Equal(wire(x.ptr), x.wire) && !vk.SameMessage(x.ptr, x.copy) {
 			out.mutated = append(out.mutated, fmt.Sprintf("%s: was %s now %s", x.label, vk.JSON(x.copy), vk.JSON(x.ptr)))
 		}
 	}
@@ -80,6 +111,8 @@ func (w *watcher) verify(out *outcome) {
 
 type entry struct {
 	name string
+	// rare: trivial entry (nil message / absent value) that is run on a fraction of the cases only
+	rare bool
 	// pull: the mask is applied on a goroutine started by the library (a panic there kills the process).
 	pull bool
 	run  func(in *input) outcome
@@ -114,8 +147,7 @@ func newFilter(in *input, mask *fieldmaskpb.FieldMask) *masks.ResponseFilter {
 	return masks.NewResponseFilter(masks.WithFieldMask(mask))
 }
 
-func newValue(in *input, w *watcher) (*resource.Value, proto.Message) {
-	var v *resource.Value
+func newValue(in *input, w *watcher) (v *resource.Value, stored, storedCopy proto.Message) {
 	if in.variant%2 == 0 {
 		v = resource.NewValue(resource.WithInitialValue(clone(in.msgs[0])))
 	} else {
@@ -124,13 +156,11 @@ func newValue(in *input, w *watcher) (*resource.Value, proto.Message) {
 			panic("harness: Value.Set failed: " + err.Error())
 		}
 	}
-	stored := v.Get() // no mask: the stored pointer itself
-	w.add("stored", stored)
-	return v, stored
+	stored = v.Get() // no mask: the stored pointer itself
+	return v, stored, w.add("stored", stored)
 }
 
-func newCollection(in *input, w *watcher) (*resource.Collection, proto.Message, proto.Message) {
-	var c *resource.Collection
+func newCollection(in *input, w *watcher) (c *resource.Collection, sa, sb, copyA, copyB proto.Message) {
 	if in.variant%2 == 0 {
 		c = resource.NewCollection(resource.WithInitialRecord("a", clone(in.msgs[0])), resource.WithInitialRecord("b", clone(in.msgs[1])))
 	} else {
@@ -142,11 +172,9 @@ func newCollection(in *input, w *watcher) (*resource.Collection, proto.Message, 
 			panic("harness: Collection.Add failed: " + err.Error())
 		}
 	}
-	sa, _ := c.Get("a")
-	sb, _ := c.Get("b")
-	w.add("stored[a]", sa)
-	w.add("stored[b]", sb)
-	return c, sa, sb
+	sa, _ = c.Get("a")
+	sb, _ = c.Get("b")
+	return c, sa, sb, w.add("stored[a]", sa), w.add("stored[b]", sb)
 }
 
 var entries = []*entry{
@@ -156,7 +184,7 @@ var entries = []*entry{
 		w.add("mask", mask)
 		m := clone(in.msgs[0])
 		newFilter(in, mask).Filter(m) // documented to change m: m is the result
-		out.obs = append(out.obs, obs{"", m, clone(in.msgs[0])})
+		out.obs = append(out.obs, obs{"", m, in.msgs[0]})
 		w.verify(&out)
 		return
 	}},
@@ -167,11 +195,11 @@ var entries = []*entry{
 		m := clone(in.msgs[0])
 		w.add("input", m)
 		got := newFilter(in, mask).FilterClone(m)
-		out.obs = append(out.obs, obs{"", got, clone(in.msgs[0])})
+		out.obs = append(out.obs, obs{"", got, in.msgs[0]})
 		w.verify(&out)
 		return
 	}},
-	{name: "FilterClone(nil)", run: func(in *input) (out outcome) {
+	{name: "FilterClone(nil)", rare: true, run: func(in *input) (out outcome) {
 		mask := in.mask()
 		got := newFilter(in, mask).FilterClone(nil)
 		newFilter(in, mask).Filter(nil)
@@ -191,7 +219,7 @@ var entries = []*entry{
 		} else {
 			got = rr.ResponseFilter().FilterClone(m)
 		}
-		out.obs = append(out.obs, obs{"", got, clone(in.msgs[0])})
+		out.obs = append(out.obs, obs{"", got, in.msgs[0]})
 		w.verify(&out)
 		return
 	}},
@@ -199,8 +227,7 @@ var entries = []*entry{
 		mask := in.mask()
 		var w watcher
 		w.add("mask", mask)
-		v, stored := newValue(in, &w)
-		src := clone(stored)
+		v, stored, src := newValue(in, &w)
 		got := v.Get(readOpt(in, mask)...)
 		out.obs = append(out.obs, obs{"", got, src})
 		if again := v.Get(); again != stored {
@@ -209,7 +236,7 @@ var entries = []*entry{
 		w.verify(&out)
 		return
 	}},
-	{name: "Value.Get(absent)", run: func(in *input) (out outcome) {
+	{name: "Value.Get(absent)", rare: true, run: func(in *input) (out outcome) {
 		v := resource.NewValue()
 		got := v.Get(readOpt(in, in.mask())...)
 		out.obs = append(out.obs, obs{"", got, nil})
@@ -219,15 +246,14 @@ var entries = []*entry{
 		mask := in.mask()
 		var w watcher
 		w.add("mask", mask)
-		v, stored := newValue(in, &w)
-		src0 := clone(stored)
+		v, _, src0 := newValue(in, &w)
 		ctx, cancel := context.WithCancel(context.Background())
 		defer cancel()
 		bp := in.variant%4 >= 2
 		ch := v.Pull(ctx, append(readOpt(in, mask), resource.WithBackpressure(bp))...)
 		seed, ok := <-ch
 		if !ok {
-			out.shape = append(out.shape, "stream closed before the seed value")
+			in.closedEarly(&out, "stream closed before the seed value")
 			w.verify(&out)
 			return
 		}
@@ -239,13 +265,11 @@ var entries = []*entry{
 			panic("harness: Value.Set failed: " + err.Error())
 		}
 		if !ok {
-			out.shape = append(out.shape, "stream closed before the update")
+			in.closedEarly(&out, "stream closed before the update")
 			w.verify(&out)
 			return
 		}
-		stored1 := v.Get()
-		w.add("stored'", stored1)
-		out.obs = append(out.obs, obs{"update", ev.Value, clone(stored1)})
+		out.obs = append(out.obs, obs{"update", ev.Value, w.add("stored'", v.Get())})
 		cancel()
 		for range ch {
 		}
@@ -256,8 +280,7 @@ var entries = []*entry{
 		mask := in.mask()
 		var w watcher
 		w.add("mask", mask)
-		c, sa, _ := newCollection(in, &w)
-		src := clone(sa)
+		c, sa, _, src, _ := newCollection(in, &w)
 		got, ok := c.Get("a", readOpt(in, mask)...)
 		if !ok {
 			out.shape = append(out.shape, "Get(a) reported absent")
@@ -278,8 +301,8 @@ var entries = []*entry{
 		mask := in.mask()
 		var w watcher
 		w.add("mask", mask)
-		c, sa, sb := newCollection(in, &w)
-		srcs := []proto.Message{clone(sa), clone(sb)}
+		c, _, _, ca, cb := newCollection(in, &w)
+		srcs := []proto.Message{ca, cb}
 		items := c.List(readOpt(in, mask)...)
 		if len(items) != 2 {
 			out.shape = append(out.shape, fmt.Sprintf("List returned %d items, 2 stored", len(items)))
@@ -287,7 +310,7 @@ var entries = []*entry{
 			return
 		}
 		for i, it := range items {
-			out.obs = append(out.obs, obs{fmt.Sprintf("item%d", i), it, srcs[i]})
+			out.obs = append(out.obs, obs{"item", it, srcs[i]})
 		}
 		w.verify(&out)
 		return
@@ -296,8 +319,7 @@ var entries = []*entry{
 		mask := in.mask()
 		var w watcher
 		w.add("mask", mask)
-		c, sa, sb := newCollection(in, &w)
-		srcA, srcB := clone(sa), clone(sb)
+		c, _, _, srcA, srcB := newCollection(in, &w)
 		ctx, cancel := context.WithCancel(context.Background())
 		defer cancel()
 		bp := in.variant%4 >= 2
@@ -305,7 +327,7 @@ var entries = []*entry{
 		next := func(what string, ct types.ChangeType, id string) *resource.CollectionChange {
 			ev, ok := <-ch
 			if !ok {
-				out.shape = append(out.shape, "stream closed before "+what)
+				in.closedEarly(&out, "stream closed before "+what)
 				return nil
 			}
 			if ev.ChangeType != ct || ev.Id != id {
@@ -343,8 +365,7 @@ var entries = []*entry{
 			return
 		}
 		sa1, _ := c.Get("a")
-		w.add("stored[a]'", sa1)
-		out.obs = append(out.obs, obs{"new", ev.NewValue, clone(sa1)}, obs{"old", ev.OldValue, srcA})
+		out.obs = append(out.obs, obs{"new", ev.NewValue, w.add("stored[a]'", sa1)}, obs{"old", ev.OldValue, srcA})
 		// REMOVE b
 		go func() { _, err := c.Delete("b"); errc <- err }()
 		ev = next("remove b", types.ChangeType_REMOVE, "b")
@@ -367,8 +388,7 @@ var entries = []*entry{
 			return
 		}
 		sc, _ := c.Get("c")
-		w.add("stored[c]", sc)
-		out.obs = append(out.obs, obs{"added", ev.NewValue, clone(sc)})
+		out.obs = append(out.obs, obs{"new", ev.NewValue, w.add("stored[c]", sc)})
 		finish()
 		return
 	}},
@@ -376,8 +396,7 @@ var entries = []*entry{
 		mask := in.mask()
 		var w watcher
 		w.add("mask", mask)
-		c, sa, _ := newCollection(in, &w)
-		srcA := clone(sa)
+		c, _, _, srcA, _ := newCollection(in, &w)
 		ctx, cancel := context.WithCancel(context.Background())
 		defer cancel()
 		bp := in.variant%4 >= 2
@@ -390,7 +409,7 @@ var entries = []*entry{
 		}
 		seed, ok := <-ch
 		if !ok {
-			out.shape = append(out.shape, "stream closed before the seed value")
+			in.closedEarly(&out, "stream closed before the seed value")
 			finish()
 			return
 		}
@@ -402,13 +421,12 @@ var entries = []*entry{
 			panic("harness: Collection.Update failed: " + err.Error())
 		}
 		if !ok {
-			out.shape = append(out.shape, "stream closed before the update")
+			in.closedEarly(&out, "stream closed before the update")
 			finish()
 			return
 		}
 		sa1, _ := c.Get("a")
-		w.add("stored[a]'", sa1)
-		out.obs = append(out.obs, obs{"update", ev.Value, clone(sa1)})
+		out.obs = append(out.obs, obs{"update", ev.Value, w.add("stored[a]'", sa1)})
 		finish()
 		return
 	}},
